@@ -64,6 +64,42 @@ def _months(args):
     return n, probs
 
 
+SHIFTS = [-13, -12, -1, 0, 1, 11, 12, 25]
+
+
+def _beyond(months):
+    """EDATE / WEEKNUM / ISOWEEKNUM against Calendar.tla - beyond what C20 states:
+    agreement is counted for the evidence, a disagreement is not a C20 violation."""
+    impl.F()
+    EDATE, WEEKNUM, ISOWEEKNUM = fn('EDATE'), fn('WEEKNUM'), fn('ISOWEEKNUM')
+    agree = {'EDATE': 0, 'WEEKNUM': 0, 'ISOWEEKNUM': 0}
+    differ = {'EDATE': [], 'WEEKNUM': [], 'ISOWEEKNUM': []}
+
+    def note(name, args, want, got):
+        g = num(got)
+        ok = (g == want) if want != -1 else (V.alpha(got) == V.E('NUM'))
+        if ok:
+            agree[name] += 1
+        elif len(differ[name]) < 5:
+            differ[name].append({'args': args, 'spec': want if want != -1 else '#NUM!',
+                                 'code': g if isinstance(g, float) else V.show(g)})
+        else:
+            differ[name].append(None)
+    for mo in months:
+        first, ln = mo['first'], mo['len']
+        last = first + ln - 1
+        for k, (e1, e2) in zip(SHIFTS, mo['ed']):
+            note('EDATE', [first, k], e1, EDATE(first, k))
+            note('EDATE', [last, k], e2, EDATE(last, k))
+        for s, t, w in ((first, 1, mo['wk'][0]), (first, 2, mo['wk'][1]), (last, 1, mo['wk'][2]),
+                        (last, 2, mo['wk'][3])):
+            note('WEEKNUM', [s, t], w, WEEKNUM(s, t))
+        if first >= 61:
+            note('ISOWEEKNUM', [first], mo['iso'][0], ISOWEEKNUM(first))
+            note('ISOWEEKNUM', [last], mo['iso'][1], ISOWEEKNUM(last))
+    return agree, {k: (len(v), [x for x in v if x]) for k, v in differ.items()}
+
+
 def _seconds(items):
     impl.F()
     TIME, HOUR, MINUTE, SECOND = (fn(n) for n in ('TIME', 'HOUR', 'MINUTE', 'SECOND'))
@@ -136,7 +172,7 @@ def main():
         # ---- calendar -------------------------------------------------------
         r = run_tlc('Calendar', 'Calendar.cfg', timeout=900)
         rep.add_tlc(r, 'Calendar: 97 200 month states; LenOK LastSerial Feb1900 Mar1900 '
-                       'WeekdayStep WeekdayRange')
+                       'WeekdayStep WeekdayRange ClosedForm EDateBack WeekRange')
         months = parse_obl(r['out'])
         if len(months) != 97200:
             raise MachineryError('expected 97200 months, got %d' % len(months))
@@ -151,6 +187,19 @@ def main():
                                'how': 'YEAR/MONTH/DAY(serial), DATE(y,m,d), WEEKDAY(serial, mode) '
                                       'from the function table'})
         rep.count(n_days)
+        # beyond the property: EDATE / WEEKNUM / ISOWEEKNUM on one month in seven
+        pick = [mo for mo in months if (mo['y'] * 12 + mo['m']) % 7 == seed() % 7]
+        tot = {'EDATE': [0, 0, []], 'WEEKNUM': [0, 0, []], 'ISOWEEKNUM': [0, 0, []]}
+        for agree, differ in pmap(_beyond, shards(pick, NCPU * 2), chunk=1):
+            for k in tot:
+                tot[k][0] += agree[k]
+                tot[k][1] += differ[k][0]
+                tot[k][2] = (tot[k][2] + differ[k][1])[:5]
+        rep.cov['beyond_property'] = {
+            'note': 'EDATE, WEEKNUM, ISOWEEKNUM are defined in Calendar.tla from the same calendar; '
+                    'C20 does not state them, so disagreements are listed here and are not violations',
+            'functions': {k: {'agree': v[0], 'differ': v[1], 'examples_of_difference': v[2]}
+                          for k, v in tot.items()}}
         for mo in months[::1000]:
             rep.distinct(('mo', mo['y'], mo['m']))
         # day 0 and the domain ends
